@@ -204,6 +204,89 @@ func vpH_C06_text2()      { vpC06Text(2, false) }
 func vpT_C06_text2_full() { vpC06Text(2, true) }
 func vpT_C06_text3()      { vpC06Text(3, false) }
 
+// every type name a value can bear: the text-bearing properties of a holder of that name survive both
+// codecs, at top level and embedded in another object (the decoders dispatch on the name)
+func vpH_C06_type_names() {
+	var names ActivityVocabularyTypes
+	group := vpChoice(4)
+	switch group {
+	case 0:
+		names = ObjectTypes
+	case 1:
+		names = ActorTypes
+	case 2:
+		names = ActivityTypes
+	default:
+		names = CollectionTypes
+	}
+	tn := names[vpChoice(len(names))]
+	t := []byte{vpRange(0x20, 0x7e)}
+	f := []int{0, 2}[vpChoice(2)]
+	n := NaturalLanguageValues{{Ref: NilLangRef, Value: Content(t)}}
+	if f == 2 {
+		n = NaturalLanguageValues{{Ref: "en", Value: Content(t)}, {Ref: "fr", Value: Content("autre")}}
+	}
+	x, err := GetItemByType(tn)
+	vpAssert("type-names/constructor/"+string(tn), err == nil && x != nil)
+	if x == nil {
+		return
+	}
+	prop := vpChoice(4)
+	if prop == 3 && group != 1 {
+		prop = 0
+	}
+	_ = OnObject(x, func(o *Object) error {
+		o.ID = "https://h.ex/i"
+		switch prop {
+		case 0:
+			o.Name = n
+		case 1:
+			o.Summary = n
+		case 2:
+			o.Content = n
+		}
+		return nil
+	})
+	if prop == 3 {
+		_ = OnActor(x, func(a *Actor) error { a.PreferredUsername = n; return nil })
+	}
+	get := func(y Item) NaturalLanguageValues {
+		var out NaturalLanguageValues
+		if prop == 3 {
+			_ = OnActor(y, func(a *Actor) error { out = a.PreferredUsername; return nil })
+			return out
+		}
+		_ = OnObject(y, func(o *Object) error {
+			switch prop {
+			case 0:
+				out = o.Name
+			case 1:
+				out = o.Summary
+			default:
+				out = o.Content
+			}
+			return nil
+		})
+		return out
+	}
+	codec := vpChoice(2)
+	cell := "type-names/" + string(tn) + "/" + []string{"name", "summary", "content", "preferredUsername"}[prop] + "/" + []string{"json", "gob"}[codec]
+	if vpBool() {
+		vpC06Check(cell, codec, x, get, f, t)
+	} else {
+		holder := &Object{ID: "https://h.ex/o", Type: NoteType, AttributedTo: x}
+		vpC06Check(cell+"/embedded", codec, holder, func(y Item) NaturalLanguageValues {
+			var in Item
+			_ = OnObject(y, func(o *Object) error { in = o.AttributedTo; return nil })
+			if in == nil {
+				return nil
+			}
+			return get(in)
+		}, f, t)
+	}
+	vpReach("end")
+}
+
 // texts that look like escape sequences: a backslash followed by any byte, inside other text
 func vpH_C06_backslash() {
 	c := vpByte()
